@@ -157,3 +157,82 @@ Definition get_host (scheme : str) (host_header : option str) (server : option (
         end
     end in
   strip_default_port scheme host.
+
+(* ------------------------------------------------------------------ wsgi.get_current_url *)
+(* the URI that wsgi.get_current_url(environ, root_only, strip_querystring, host_only) hands to
+   uri_to_iri; None models UnicodeEncodeError (an environ string outside latin-1, or a lone
+   surrogate after decoding) *)
+Definition wsgi_current_uri (root_only strip_querystring host_only : bool)
+  (scheme : str) (host_header : option str) (server : option (str * option str))
+  (script_name path_info query_string : str) : option str :=
+  let host := get_host scheme host_header server in
+  let root := if wsgi_url_takes_root root_only strip_querystring host_only
+              then option_map Some (wsgi_decoding_dance_replace script_name) else Some None in
+  let path := if wsgi_url_takes_path root_only strip_querystring host_only
+              then option_map Some (wsgi_decoding_dance_replace path_info) else Some None in
+  let qs := if wsgi_url_takes_query root_only strip_querystring host_only
+            then option_map Some (latin1_encode query_string) else Some None in
+  match root, path, qs with
+  | Some r, Some p, Some q => current_uri scheme host r p q
+  | _, _, _ => None
+  end.
+
+(* ------------------------------------------------------------------ splitting a URI again *)
+(* urlsplit on the subset scheme://authority path [?query] [#fragment] *)
+Definition is_delim (c : N) : bool := (c =? 47) || (c =? 63) || (c =? 35).
+Definition not_delim (c : N) : bool := negb (is_delim c).
+Definition not_qf (c : N) : bool := negb ((c =? 63) || (c =? 35)).
+Definition not_frag (c : N) : bool := negb (c =? 35).
+
+Definition split_uri (u : str) : option (str * str * str * option str) :=
+  match find_sub [58; 47; 47] u with
+  | None => None
+  | Some (scheme, rest) =>
+      let auth := take_while not_delim rest in
+      let r1 := drop_while not_delim rest in
+      let path := take_while not_qf r1 in
+      let r2 := drop_while not_qf r1 in
+      let query := match r2 with
+                   | c :: r3 => if c =? 63 then Some (take_while not_frag r3) else None
+                   | [] => None
+                   end in
+      Some (scheme, auth, path, query)
+  end.
+
+(* ------------------------------------------------------------------ spec vocabulary for the uri_to_iri laws *)
+(* every percent sign starts an escape (two hex digits follow) *)
+Fixpoint wf_pct (s : str) : bool :=
+  match s with
+  | [] => true
+  | c :: r =>
+      if c =? PCT then
+        match r with
+        | h1 :: r1 => match r1 with
+                      | h2 :: r2 => is_hex h1 && is_hex h2 && wf_pct r2
+                      | [] => false
+                      end
+        | [] => false
+        end
+      else wf_pct r
+  end.
+
+
+(* urllib.parse.unquote_to_bytes on text: escapes become bytes, everything else its UTF-8 *)
+Fixpoint tbytes (s : str) : bytes :=
+  match s with
+  | [] => []
+  | c :: r =>
+      if c =? PCT then
+        match r with
+        | h1 :: r1 =>
+            match r1 with
+            | h2 :: r2 =>
+                if is_hex h1 && is_hex h2 then (hex_val h1 * 16 + hex_val h2) :: tbytes r2
+                else c :: tbytes r
+            | [] => c :: tbytes r
+            end
+        | [] => c :: tbytes r
+        end
+      else enc1 c ++ tbytes r
+  end.
+
